@@ -47,9 +47,11 @@ func Scratch(prefix string) (string, error) {
 }
 
 type Want struct {
-	Versions []string // OpenAPI versions to emit ("3.0.0", "3.1.0")
-	Engines  []string // routing engines to emit
-	Diags    bool     // also collect Validate() diagnostics
+	Versions []string                                           // OpenAPI versions to emit ("3.0.0", "3.1.0")
+	Engines  []string                                           // routing engines to emit
+	Diags    bool                                               // also collect Validate() diagnostics
+	AuthPkg  func(engine string) string                         // per-engine authorization package (router lab)
+	Tweak    func(cfg *definitions.GleeceConfig, engine string) // last-minute per-engine config changes
 }
 
 type Result struct {
@@ -141,6 +143,12 @@ func RunInProcess(dir string, want Want) *Result {
 			cfg := *res.Config
 			cfg.RoutesConfig.Engine = definitions.RoutingEngineType(e)
 			cfg.RoutesConfig.OutputPath = filepath.Join("routes_"+e, "gleece.go")
+			if want.AuthPkg != nil {
+				cfg.RoutesConfig.AuthorizationConfig.AuthFileFullPackageName = want.AuthPkg(e)
+			}
+			if want.Tweak != nil {
+				want.Tweak(&cfg, e)
+			}
 			if err := routes.GenerateRoutes(&cfg, *res.Meta); err != nil {
 				res.RoutesErr[e] = err
 				return
